@@ -98,7 +98,7 @@ def run(ctx):
     t = targeted(ctx)
     items += t
     ctx.count('source', 'explicit_target', len(t))
-    rd = randoms(ctx, 900 if ctx.tier == 'quick' else 20000)
+    rd = randoms(ctx, int((900 if ctx.tier == 'quick' else 8000) * K.SCALE))
     items += rd
     ctx.count('source', 'random_history', len(rd))
     for sc, obs, bad, tags in items:
